@@ -39,6 +39,10 @@ CLAIMS = {
                 note=_NOTE + "; the operating system is a stated model (xhair/globstub.py)", technique="symbolic execution of FindInPaths.star_search_simple/FindInAll.find/FindInConstants (CrossHair+z3) over a glob stub with symbolic universe"),
     "C18": dict(text=_X + ". get_next / get_last / get_new (the repository's NextGetter plugin routed through GetFromAll and the data configuration) on version skeletons with symbolic digits under miniA and the shipped configuration; existing versions served by a type-aware list source; a publish step.",
                 note=_NOTE, technique="symbolic execution of get_next/get_last/get_new and NextGetter.get_attr (CrossHair+z3), symbolic version digits, enumerated leading digits"),
+    "C15": dict(text=_X + ". The real writer / getter run over an in-memory file-system model with the real json module: one inductive step from an arbitrary pre-state per operation and Sid, two-entity sequences for interference, side-car location with real pathlib. Inputs are finite pools chosen by symbolic indices, so the solver enumerates them (weakest fit of the technique; stated in the evidence).",
+                note=_NOTE + "; the operating system is a stated model (xhair/memfs.py)", technique="symbolic execution of WriteToPaths.create/update/set and GetFromPaths.get_data (CrossHair+z3) over an in-memory file-system model, solver-enumerated pre-states and data"),
+    "C16": dict(text=_X + ". The real GetFromPaths.get / GetFromAll.get run over the in-memory file-system and glob models and are compared record by record with what the real FindInPaths / FindInAll find, for enumerated searches and solver-chosen attribute lists / sid encoders, two calls in a row.",
+                note=_NOTE + "; the operating system is a stated model (xhair/memfs.py, xhair/globstub.py)", technique="symbolic execution of GetByFinder.get/GetFromAll.get/GetFromPaths.get_data (CrossHair+z3) over in-memory models, solver-enumerated arguments"),
 }
 
 NOT_APPLICABLE = {}
